@@ -3,8 +3,8 @@ CONSTANTS
   MaxB = 5
   MaxN = 4
   ValTab <- ValsSmall
+  Refs = {0, 1, 2, 3, 4}
   Canon = FALSE
   Kinds = {"R","G","LVr","LIr","Vr","VLr","Ir","ILr","S","O"}
-INVARIANT C01_Kirchhoff
-INVARIANT Emit
+INVARIANT Check
 CHECK_DEADLOCK FALSE
